@@ -145,3 +145,10 @@ func (s *Session) DoRawH1(raw, method string, timeout time.Duration) (*Resp, err
 	}
 	return &Resp{Status: resp.StatusCode, Header: resp.Header, Body: b}, nil
 }
+
+// TakeStreamID returns the next unused client stream id of an HTTP/2 session and reserves it.
+func (s *Session) TakeStreamID() uint32 {
+	id := s.nextID
+	s.nextID += 2
+	return id
+}
